@@ -10,6 +10,9 @@ NOTE_COMMON = ("Trusted: go/types and go/ssa (x/tools v0.50.0) construction for 
                "code; value-level clauses named there as 'not decided' are not covered.")
 
 claimed = {
+ "C02": dict(category="other",
+   text="Decides the local gates and derivations that the gap-free certificate chain rests on, on every path of the code: send only behind a fresh !ExistPendingCerts; the status check fails closed on every error and for every certificate still open after refresh (boolean accumulator tracked path-sensitively); a single submission site; every producing return of the next-height/previous-LER and last-block/retry functions matched with its dominating branch facts against the case table; build-parameter provenance; retry keeps its first block and passes VerifyBuildParams; stored header fields. The global exactly-once-over-all-schedules statement is a protocol property over interleavings of five actors and is not decided, hence level 'other'.",
+   ref="4 C02", technique="static analysis: SSA dominance with boolean/nil path facts, guarded-return case matching, provenance, who-may-call"),
  "C04": dict(category="other",
    text="Decides structural necessary conditions of reorg cleanliness: the schema of each store is computed from the embedded migrations and every synced table cascades from block(num); the single sql.Open enables foreign keys; every Reorg binds the block deletion and the rewind of every tree-typed field to the same tx and block number on every committing path; Reorg is atomic; the in-memory frontier is rewritten from the database on every successful rebuild. Observational equivalence of all queries for all histories is value-level and not decided; SQLite's cascade semantics are trusted.",
    ref="4 C04", technique="static analysis: DDL reader over embedded migrations, who-may-call, provenance and must-pass-through on SSA"),
@@ -25,6 +28,9 @@ claimed = {
  "C16": dict(category="other",
    text="Decides structural necessary conditions of the injected-GER index: the PP downloader fetches from its loop-carried cursor (the pinned tree fetched only the tip: fixed); watched topics are the ABI signatures of the events their handlers parse (oracle: the contract binding's ABI); handler and processor field maps; delete-by-GER only for removals, on the block's transaction; the lookup statement returns the minimum index >= X. FEP state polling and liveness are not decided.",
    ref="4 C16", technique="static analysis: cursor (loop-carried Phi) discipline, ABI cross-check, provenance, SQL token checks"),
+ "C13": dict(category="other",
+   text="Decides structural necessary conditions of crash-safe certificate bookkeeping: primary keys computed from the embedded migrations; every storage transaction paired, written through and error-checked; replace-at-height inside one transaction; reconciliation before the first send and refusal on contradictions; the record rebuilt from an Agglayer header field by field; every deciding return of the reconciliation matched with its dominating branch facts against the case table (constant +1 only). The end-to-end crash/restart behaviour is not decided.",
+   ref="4 C13", technique="static analysis: DDL reader, transaction-discipline rules, guarded-return case matching, field-map provenance"),
  "C14": dict(category="proof",
    text="Static proof, over all paths of the current source, of the fail-stop structure: every exported data query of both syncers (enumerated from the method sets, so later additions are included) is dominated by the !isHalted() edge and returns ErrInconsistentState on the halted edge; ProcessBlock tests the flag before opening a transaction and the driver stops on that error; halting sites latch the flag; the only clearing store is in UnhaltIfAffectedRows under rowsAffected>0, reached only from Reorg after a nil Commit with the DELETE's RowsAffected. Proof level is right because the property is a universally quantified statement about entry points and flag writes, which is exactly what dominance and who-may-write analyses decide.",
    ref="4 C14", technique="static analysis: SSA dominance / path-sensitive reachability, who-may-write enumeration, value provenance",
